@@ -6,7 +6,7 @@ set -e
 cd "$(dirname "$0")/.."
 B=$(ls -d /root/.rustup/toolchains/nightly-x86_64-unknown-linux-gnu/lib/rustlib/*/bin | head -1)
 mkdir -p /tmp/cov
-(cd harness && CARGO_NET_OFFLINE=true RUSTFLAGS="-C instrument-coverage" CARGO_TARGET_DIR=/tmp/cov/target cargo +nightly build --offline --profile checked >/dev/null 2>&1)
+(cd harness && LLVM_PROFILE_FILE=/tmp/cov/build-%p.profraw CARGO_NET_OFFLINE=true RUSTFLAGS="-C instrument-coverage" CARGO_TARGET_DIR=/tmp/cov/target cargo +nightly build --offline --profile checked >/dev/null 2>&1)
 python3 - <<'PY'
 import sys,random,os
 sys.path.insert(0,'/verif')
